@@ -1,12 +1,40 @@
 // C16 — a follower's cache is a faithful copy of the leader's stream.
 //
-// Real syncer.ReplicaLeader behind a real gRPC server on loop-back (the stream is wrapped so the
-// harness can cut a transfer after message k), real syncer.ReplicaFollower.Run(), both sides'
-// Channels (disk and memory) fed with PRF(run-id, offset) bytes through the writer protocol
-// RedisInput uses.  The oracle reads back everything the follower's channel declares valid.
+// Observed system: a real syncer.ReplicaLeader behind a real gRPC server on loop-back whose Sync
+// handler does what syncer.ServiceReplica does (the stream is wrapped: every message is logged and
+// a transfer can be cut after message k), a real syncer.ReplicaFollower.Run(), and both sides'
+// Channels (disk StoreChannel and MemoryChannel, all four combinations).  Both caches are fed with
+// PRF(run-id, offset) bytes through the writer calls RedisInput makes (DelRunId/SetRunId,
+// NewRdbWriter Start/Wait/Close, NewAofWritter Start over one *bufio.Reader), so every byte read
+// back identifies the history and offset it belongs to.
+//
+// Histories (per side): E empty · P snapshot+short log of id X · Q the same history further ·
+// C log only, older positions gone, no snapshot · CS newer snapshot + log · O another id Y reaching
+// beyond every X state · OL id Y below every X state · G (leader) Q grown and then trimmed by the
+// cache's own collector · E as leader = no cache yet, takes a full resynchronisation (> 10 MiB ahead)
+// while the follower is connected.  Follower caches are either the object already used in this
+// process (current id set: a node that was leader/follower before) or a fresh object over the same
+// directory (process restart; disk only).
+// Scenarios: plain (+ live appends in bursts of 1..9000 bytes while the follower streams) · cut of
+// transfer RPC x after k messages, then Stop + inspect + a new follower over the same cache (as
+// syncer.run does), or left to the follower's own 3 s retry · leader restarted under another id
+// between handshake and meta sync, or once the follower has caught up · leader stopped for exactly
+// the first meta-sync RPC.
+//
+// Oracle (oracle.go): whenever inspected — once while Run() is active and idle, after a cut, after
+// Stop — everything the follower's channel declares valid under its current id must read back, end
+// to end, as PRF(id, offset) (log) / PRF(id, left, i) (snapshot, complete), equal the leader's copy
+// where both hold the offset, with no hole in the declared range; a metadata sampler checks during
+// Run() that the follower never declares more of the leader's id than the leader was ever fed; a
+// follower ahead of the leader must get ErrLeaderTakeover from Run() with an unchanged cache; a
+// follower that faces a healthy leader through 4 sessions without storing anything of it has not
+// resynchronised.  Refusals (reader cannot be opened) are counted, not alarmed.  Waits end on
+// logical events (declared right edge == bytes fed to the leader, Run returned, cut fired, 4
+// handshakes, everything delivered and no new session); the wall-clock watchdog is inconclusive.
 package main
 
 import (
+	"encoding/json"
 	"errors"
 	"fmt"
 	"math/rand"
@@ -49,6 +77,7 @@ type caseSpec struct {
 	Variant   int      `json:"variant"`
 	LogSizeL  int64    `json:"log_size_leader"`
 	LogSizeF  int64    `json:"log_size_follower"`
+	MaxSizeL  int64    `json:"max_size_leader,omitempty"`
 	LH        hist     `json:"leader_history"`
 	FH        hist     `json:"follower_history"`
 	ZH        hist     `json:"switch_history"`
@@ -70,6 +99,8 @@ func mkHist(name, idX, idY string, j int64) hist {
 		return hist{Name: name, ID: idX, RdbLeft: 45000 + j, RdbSize: 16000, LogLeft: 45000 + j, LogRight: 57000 + j}
 	case "O": // another id, reaching beyond every X state
 		return hist{Name: name, ID: idY, RdbLeft: 500 + j, RdbSize: 9000, LogLeft: 500 + j, LogRight: 70000 + j}
+	case "G": // leader only: the Q history grown further, then older positions removed by the cache's collector
+		return hist{Name: name, ID: idX, RdbLeft: 1000 + j, RdbSize: 20000, LogLeft: 1000 + j, LogRight: 41000 + j}
 	case "OL": // another id, below every X state
 		return hist{Name: name, ID: idY, RdbLeft: 300, RdbSize: 5000, LogLeft: 300, LogRight: 700 + j%200}
 	}
@@ -79,7 +110,7 @@ func mkHist(name, idX, idY string, j int64) hist {
 func buildCases(r *harness.Run) []*caseSpec {
 	var cases []*caseSpec
 	combos := [][2]string{{backendDisk, backendDisk}, {backendDisk, backendMem}, {backendMem, backendDisk}, {backendMem, backendMem}}
-	variants := r.N(1, 3)
+	variants := r.N(1, 6)
 	add := func(c caseSpec) {
 		key := fmt.Sprintf("L=%s/F=%s/%s-%s/%s/%s", c.L, c.F, c.BL, c.BF, c.Proc, c.Scn)
 		switch c.Scn {
@@ -114,6 +145,9 @@ func buildCases(r *harness.Run) []*caseSpec {
 		}
 		sizes := []int64{4096, 10000, 1 << 20}
 		c.LogSizeL, c.LogSizeF = sizes[rng.Intn(3)], sizes[rng.Intn(3)]
+		if c.L == "G" {
+			c.LogSizeL, c.MaxSizeL = 4096, 30000
+		}
 		burst := []int64{1, 17, 700, 4095, 4096, 4097, 9000}
 		for i := 0; i < 3; i++ {
 			c.Bursts = append(c.Bursts, burst[rng.Intn(len(burst))])
@@ -140,6 +174,12 @@ func buildCases(r *harness.Run) []*caseSpec {
 						add(caseSpec{L: l, F: f, BL: cb[0], BF: cb[1], Proc: "fresh", Scn: scPlain, Variant: v})
 					}
 				}
+			}
+		}
+		// A'. positions collected at the leader by the cache's own collector
+		for _, f := range []string{"E", "P", "Q", "C", "O"} {
+			for _, cb := range combos {
+				add(caseSpec{L: "G", F: f, BL: cb[0], BF: cb[1], Proc: "same", Scn: scPlain, Variant: v})
 			}
 		}
 		// B. a cut at every message of small transfers
@@ -273,7 +313,7 @@ func (cr *caseRun) witness(extra map[string]any) map[string]any {
 	w := map[string]any{
 		"case": cr.c, "follower_before": cr.pre, "rpcs": cr.ln.snapshotRPCs(),
 		"follower_trace": cr.trace, "notes": cr.notes,
-		"replay": "VERIF_SEED=<seed> VERIF_CASE='<case key>' ./run.sh C16 " + cr.r.Tier,
+		"replay": fmt.Sprintf("VERIF_SEED=%d VERIF_CASE='%s' ./run.sh C16 %s", cr.r.Seed, cr.c.Key, cr.r.Tier),
 	}
 	for k, v := range extra {
 		w[k] = v
@@ -293,9 +333,10 @@ func (cr *caseRun) sampler() {
 		default:
 		}
 		fs := stateOf(cr.fch)
-		// the leader's view is sampled after the follower's: its right edge only grows under one id
-		lid := cr.lch.RunId()
-		_, lr := cr.lch.GetOffsetRange(lid)
+		// compared with what the leader has been fed so far (sampled after the follower; it only
+		// grows under one id).  The leader's own declared right edge may lag behind the bytes its
+		// readers already serve, so it is not used here.
+		lid, fed := cr.lf.fedUpTo()
 		cr.mu.Lock()
 		cr.samples++
 		if first || fs.ID != last.ID || fs.Left != last.Left || fs.RdbLeft != last.RdbLeft || (fs.Right != last.Right && (last.Right < 0 || fs.Right < last.Right)) {
@@ -305,10 +346,10 @@ func (cr *caseRun) sampler() {
 		}
 		first = false
 		last = fs
-		if cr.beyond == nil && fs.ID != "" && fs.ID == lid && lr >= 0 && fs.Right > lr && cr.lch.RunId() == lid {
+		if cr.beyond == nil && fs.ID != "" && fs.ID == lid && fs.Right > fed {
 			// not the follower's own earlier data of the same id (the ahead case)
 			if !(fs.ID == cr.pre.ID && fs.Right <= cr.pre.Right) {
-				cr.beyond = map[string]any{"follower": fs, "leader_right": lr}
+				cr.beyond = map[string]any{"follower": fs, "leader_fed_up_to": fed}
 			}
 		}
 		cr.mu.Unlock()
@@ -368,6 +409,10 @@ const maxHandshakes = 4
 // waitEvent blocks until a logical event: the follower caught up, Run returned, the armed cut
 // fired, or the follower went through maxHandshakes sessions without catching up.
 func (cr *caseRun) waitEvent(h *follHandle, wantCut bool) string {
+	deliveredSince, deliveredRPCs := time.Now(), -1
+	if h.ret {
+		return "returned"
+	}
 	for i := 0; ; i++ {
 		select {
 		case h.err = <-h.done:
@@ -381,14 +426,21 @@ func (cr *caseRun) waitEvent(h *follHandle, wantCut bool) string {
 			}
 		}
 		if cr.converged() {
-			if wantCut {
-				// the cut may still be pending in this transfer: only report convergence once no
-				// further message is due (caller decides)
-			}
 			return "converged"
 		}
 		if hs, _ := cr.ln.counts(); hs-cr.hsBase >= maxHandshakes {
 			return "noconv"
+		}
+		// the open transfer has carried everything the leader holds, yet the follower's declared
+		// range does not say so, and the follower starts no new session either (its retry sleep is
+		// 3 s): stop waiting — what it declares is checked all the same
+		hs, xf := cr.ln.counts()
+		if end, open := cr.ln.lastDelivered(); open && end == cr.lf.curRight() && hs+xf == deliveredRPCs {
+			if time.Since(deliveredSince) > 4*time.Second {
+				return "delivered"
+			}
+		} else {
+			deliveredSince, deliveredRPCs = time.Now(), hs+xf
 		}
 		if time.Since(cr.t0) > caseWatchdog {
 			return "watchdog"
@@ -402,7 +454,7 @@ func (cr *caseRun) waitEvent(h *follHandle, wantCut bool) string {
 }
 
 func (cr *caseRun) check(where string, quiescent bool) chanState {
-	s, fs := checkFollower(cr.fch, cr.lch, cr.c.IDs, cr.rng, where, &cr.st)
+	s, fs := checkFollower(cr.fch, cr.lch, cr.c.IDs, cr.rng, where, quiescent, &cr.st)
 	for _, f := range fs {
 		if f.Harness && !quiescent {
 			continue // transient while the follower is working
@@ -416,6 +468,19 @@ func (cr *caseRun) check(where string, quiescent bool) chanState {
 
 func (cr *caseRun) switchLeader() error {
 	z := cr.c.ZH
+	if cr.c.BL == backendDisk {
+		// Side finding S1 (pkg/store, not this property): when the log writer is closed right after
+		// a rotation, the empty last segment is dropped from the data set without closing the
+		// readers positioned on it; such a reader (the stream serving the follower) then polls a
+		// removed file for ever and the follower is never told that the leader moved on.  Two
+		// separate one-byte appends leave a non-empty last segment, so the restart below is seen
+		// by the follower.
+		for i := 0; i < 2; i++ {
+			if err := cr.lf.append(1); err != nil {
+				return err
+			}
+		}
+	}
 	if err := cr.lf.fullSync(z.ID, z.LogLeft, z.RdbSize, nil); err != nil {
 		return err
 	}
@@ -435,8 +500,8 @@ func runCase(r *harness.Run, c *caseSpec, dir string) {
 
 	// ---- both caches, through the writer protocol
 	input := &stubInput{id: "src-" + sk}
-	cr.lch = newChannel(c.BL, ldir, "L-"+sk, c.LogSizeL)
-	cr.fch = newChannel(c.BF, fdir, "F-"+sk, c.LogSizeF)
+	cr.lch = newChannel(c.BL, ldir, "L-"+sk, c.LogSizeL, c.MaxSizeL)
+	cr.fch = newChannel(c.BF, fdir, "F-"+sk, c.LogSizeF, 0)
 	cr.lf = &feeder{ch: cr.lch, input: input}
 	ff := &feeder{ch: cr.fch}
 	defer func() { cr.lch.Close(); cr.fch.Close() }()
@@ -447,6 +512,17 @@ func runCase(r *harness.Run, c *caseSpec, dir string) {
 		harnessFail("leader load: %v", err)
 		return
 	}
+	if c.L == "G" {
+		// the disk backend collects on a 30 s timer: run one pass now (memory collects while appending)
+		if g, ok := cr.lch.(interface{ VerifGcNow() }); ok {
+			g.VerifGcNow()
+		}
+		if l, _ := cr.lch.GetOffsetRange(c.LH.ID); l <= c.LH.LogLeft {
+			harnessFail("collector did not remove anything at the leader: %v", stateOf(cr.lch))
+			return
+		}
+		r.Count("leader_states_made_by_collector", 1)
+	}
 	if err := ff.load(c.FH); err != nil {
 		harnessFail("follower load: %v", err)
 		return
@@ -454,11 +530,11 @@ func runCase(r *harness.Run, c *caseSpec, dir string) {
 	ff.closeLog()
 	// what was fed must read back before the session starts (else the cache itself is at fault: C05)
 	var st0 checkStats
-	if _, fs := checkFollower(cr.fch, nil, c.IDs, cr.rng, "before", &st0); len(fs) > 0 {
+	if _, fs := checkFollower(cr.fch, nil, c.IDs, cr.rng, "before", true, &st0); len(fs) > 0 {
 		harnessFail("follower's pre-loaded cache does not read back: %s %s", fs[0].Sig, fs[0].What)
 		return
 	}
-	if _, fs := checkFollower(cr.lch, nil, c.IDs, cr.rng, "leader-before", &st0); len(fs) > 0 {
+	if _, fs := checkFollower(cr.lch, nil, c.IDs, cr.rng, "leader-before", true, &st0); len(fs) > 0 {
 		harnessFail("leader's cache does not read back: %s %s", fs[0].Sig, fs[0].What)
 		return
 	}
@@ -469,7 +545,7 @@ func runCase(r *harness.Run, c *caseSpec, dir string) {
 	}
 	if c.Proc == "fresh" {
 		cr.fch.Close()
-		cr.fch = newChannel(c.BF, fdir, "F-"+sk, c.LogSizeF)
+		cr.fch = newChannel(c.BF, fdir, "F-"+sk, c.LogSizeF, 0)
 	}
 
 	ln, err := newLeaderNode(cr.lch, input)
@@ -647,6 +723,9 @@ func runCase(r *harness.Run, c *caseSpec, dir string) {
 		cr.mu.Lock()
 		tr := fmt.Sprint(cr.trace)
 		cr.mu.Unlock()
+		if b, err := json.Marshal(cr.witness(nil)); err == nil {
+			fmt.Printf("WATCHDOG %s\n", b)
+		}
 		harnessFail("watchdog: follower neither caught up nor returned (trace %s)", tr)
 		return
 	}
@@ -679,6 +758,8 @@ func runCase(r *harness.Run, c *caseSpec, dir string) {
 		outcome = "returned-other"
 	case ev == "noconv":
 		outcome = "no-convergence"
+	case ev == "delivered":
+		outcome = "delivered-not-declared"
 	case kind == "rdb":
 		outcome = "resynced-with-snapshot"
 	case cr.pre.ID == "" || cr.pre.Right < 0:
@@ -707,6 +788,21 @@ func runCase(r *harness.Run, c *caseSpec, dir string) {
 				Detail: map[string]any{"follower_after": final}})
 		}
 	}
+	// a healthy leader answered every handshake, the follower went through maxHandshakes sessions
+	// and still holds nothing of what the leader has now: it neither joined nor resynchronised
+	if ev == "noconv" && !expectTakeover {
+		healthy := true
+		for _, rp := range rpcs {
+			if rp.Handshake && rp.Done && (len(rp.Msgs) == 0 || rp.Msgs[0].Code != "META" || rp.Msgs[0].RunID == "") {
+				healthy = false
+			}
+		}
+		if healthy {
+			cr.findings = append(cr.findings, finding{Sig: "no-resync", What: fmt.Sprintf(
+				"after %d sessions with a leader that answered every handshake the follower still declares %v (before: %v) while the leader holds id %.8s up to %d",
+				maxHandshakes, final, cr.pre, cr.lf.curID(), cr.lf.curRight()), Detail: map[string]any{"follower_after": final}})
+		}
+	}
 	// while running, the follower never declared more of an id than the leader held
 	cr.mu.Lock()
 	beyond := cr.beyond
@@ -731,6 +827,7 @@ func runCase(r *harness.Run, c *caseSpec, dir string) {
 	r.Count("bytes_compared_with_leader", cr.st.leaderCompared)
 	r.Count("snapshot_declared_but_refused", int64(cr.st.refusedSnapshot))
 	r.Count("spot_reads", int64(cr.st.spotReads))
+	r.Count("reader_stalls_resumed", int64(cr.st.resumedReads))
 	r.Count("rpcs", int64(len(rpcs)))
 	r.Count("stream_messages", ln.msgsTotal.Load())
 	r.Count("stream_bytes", ln.bytesTotal.Load())
@@ -759,5 +856,9 @@ func runCase(r *harness.Run, c *caseSpec, dir string) {
 		seen[sig] = true
 		r.Violation(sig, c.Key, f.What, cr.witness(map[string]any{"finding": f.Detail, "outcome": outcome, "follower_after": final}))
 	}
-	fmt.Printf("CASE done  %s -> %s (%s) %.1fs findings=%d\n", c.Key, outcome, kind, time.Since(cr.t0).Seconds(), len(cr.findings))
+	sigs := []string{}
+	for _, f := range cr.findings {
+		sigs = append(sigs, f.Sig)
+	}
+	fmt.Printf("CASE done  %s -> %s (%s) %.1fs findings=%d %v\n", c.Key, outcome, kind, time.Since(cr.t0).Seconds(), len(cr.findings), sigs)
 }
